@@ -399,7 +399,8 @@ Definition crash (n : node) : node :=
     <| n_pending := [] |> <| n_ro := [] |> <| n_should_verify := true |> <| n_cfg_fid := None |> <| n_lease := 0 |> <| n_contact := 0 |>
     <| n_rounds := [] |> <| n_tasks := [] |> <| n_cv := conds0 |> <| n_iswait := [] |> <| n_fsm := [] |>
     <| n_partial := None |> <| n_budget := None |> <| n_frozen := false |> <| n_applies := [] |>
-    <| n_term := n_pterm n |> <| n_vote := n_pvote n |>.   (* what restore() will read back *)
+    <| n_term := n_pterm n |> <| n_vote := n_pvote n |>   (* what restore() will read back *)
+    <| n_out := Ok |>.   (* whatever the dead process was doing (a frozen goroutine does nothing more) ended with it *)
 
 (* start(restore=false) on a node created by NewRaft (which has run restore()) *)
 Definition api_start (now : N) (n : node) : node :=
